@@ -751,6 +751,23 @@ func translateSnippet(files map[string]*ast.File, consts constEnv, sp snipSpec) 
 	return emitDef(sp.out, sp.free, term, fmt.Sprintf("generated from the definition of %s in %s (%s)", sp.variable, where, sp.file))
 }
 
+// genCtx is what a per-property generator (gen_cxx.go, registered through
+// extraGens in its init) gets: the repository path, a loader for further source
+// files, the constant environment, the failure-catching runner and the writer.
+type genCtx struct {
+	repo   string
+	files  map[string]*ast.File
+	load   func(rel string) *ast.File
+	consts constEnv
+	run    func(name string, f func() string) string
+	write  func(name, content string)
+	failed func() bool
+}
+
+var extraGens []func(*genCtx)
+
+const genHeader = "(* GENERATED by /verif/tools/gotrans from /repo's working tree - do not edit *)\n"
+
 func main() {
 	if len(os.Args) != 3 {
 		fmt.Fprintln(os.Stderr, "usage: gotrans <repo> <outdir>")
@@ -899,6 +916,22 @@ func main() {
 		if !failed {
 			write("Calls.v", sb.String())
 		}
+	}
+	for _, g := range extraGens {
+		g(&genCtx{repo: repo, files: files, consts: consts, run: run, write: write, failed: func() bool { return failed },
+			load: func(rel string) *ast.File {
+				if f, ok := files[rel]; ok {
+					return f
+				}
+				load(rel)
+				for pass := 0; pass < 2; pass++ {
+					collectConsts(files[rel], consts)
+				}
+				return files[rel]
+			}})
+	}
+	if failed {
+		os.Exit(1)
 	}
 	write("HubLocks.v", lockSkeletons(files["internal/peers/hub.go"], "Hub", "h.mu", []string{"h.sessions", "h.byPeerID", "sessionPeers", "peerIDMap"}))
 	write("Consts.v", cb.String())
